@@ -1,12 +1,24 @@
 //! Native replay shim: the Kani attributes as plain pass-throughs.
-//! `#[kani::proof]` turns the harness into an ordinary `#[test]`.
+//! `#[kani::proof]` turns the harness into an ordinary `#[test]` whose body
+//! runs under `kani::replay_driver`.
 extern crate proc_macro;
-use proc_macro::TokenStream;
+use proc_macro::{Delimiter, Group, TokenStream, TokenTree};
 
 #[proc_macro_attribute]
 pub fn proof(_attr: TokenStream, item: TokenStream) -> TokenStream {
+    let mut toks: Vec<TokenTree> = item.into_iter().collect();
+    // the function body is the last brace group
+    let body = match toks.pop() {
+        Some(TokenTree::Group(g)) if g.delimiter() == Delimiter::Brace => g,
+        other => panic!("kani::proof shim: expected a function body, found {:?}", other),
+    };
+    let mut inner: TokenStream = "kani::replay_driver".parse().unwrap();
+    let mut closure: TokenStream = "||".parse().unwrap();
+    closure.extend(std::iter::once(TokenTree::Group(Group::new(Delimiter::Brace, body.stream()))));
+    inner.extend(std::iter::once(TokenTree::Group(Group::new(Delimiter::Parenthesis, closure))));
     let mut out: TokenStream = "#[test]".parse().unwrap();
-    out.extend(item);
+    out.extend(toks);
+    out.extend(std::iter::once(TokenTree::Group(Group::new(Delimiter::Brace, inner))));
     out
 }
 
